@@ -140,6 +140,7 @@ func (p *Path) lookupMethod(typ types.Type, meth *types.Func) *ssa.Function {
 func (fr *frame) visitInstr(instr ssa.Instruction) continuation {
 	p := fr.p
 	p.steps++
+	p.curFr = fr
 	if p.steps > p.eng.cfg.MaxSteps {
 		p.end(stUnwind, fmt.Sprintf("step budget %d exceeded in %v", p.eng.cfg.MaxSteps, fr.fn))
 	}
